@@ -20,7 +20,7 @@
     rounding (the real-number theorem does not cover objectives that are flat in doubles near the minimiser); termination of
     the bracketing loop (no cap in the source; Brent's ITMAX exit is [Exit]). *)
 From Coq Require Import ZArith List Reals.
-From LP Require Import Num NumR OrdLaws C11_Model C11_Proofs C11_Proofs_Hist C11_Proofs_NM C11_Proofs_Conv C11_Proofs_Range.
+From LP Require Import Num NumR OrdLaws C11_Model C11_Proofs C11_Proofs_Hist C11_Proofs_NM C11_Proofs_Conv C11_Proofs_Range C11_Proofs_Trace.
 Import ListNotations.
 
 Section Abstract.
@@ -278,3 +278,63 @@ Print Assumptions C11_bracket_encloses_minimiser.
 Print Assumptions C11_brent_step_keeps_minimiser.
 Print Assumptions C11_find_minimum_converges_unimodal.
 Print Assumptions C11_find_maximum_converges_unimodal.
+
+(** the returned point against EVERY point at which the objective was evaluated during the call (abstract number type with the order
+    laws only; every objective without NaN values, every start, step and tolerance).  [o_tr] / the last component of find_minimum_full
+    list the evaluation points in call order; the correspondence check compares them with the library's, point by point. *)
+Section Evaluated.
+Context {T : Type} (Ops : NumOps T) (OL : OrdLaws Ops).
+
+(** "Minimization::minimize (all three overloads) return a point whose objective value is not worse than the best of ... the initial
+    simplex vertices" - in fact not worse than ANY point evaluated in the call: fmin <= f(p) for every evaluated p (rejected reflections,
+    expansions, contractions and every shrink vertex included) *)
+Theorem C11_minimize_best_of_all_evaluated ftol (c : nmcall) o : fresh_call Ops ftol c = Ok o ->
+  forall p, In p (o_tr o) -> le Ops (o_fmin o) (call_f c p).
+Proof. exact (fresh_call_best Ops OL ftol c o). Qed.
+
+(** "the state they report ... is the objective evaluated at the returned point": the returned point and every vertex of the reported
+    simplex are points at which the objective WAS evaluated in this call (all three overloads) *)
+Theorem C11_minimize_reports_evaluated_points ftol (c : nmcall) o : fresh_call Ops ftol c = Ok o ->
+  In (o_pmin o) (o_tr o) /\ forall r, In r (o_simplex o) -> In r (o_tr o).
+Proof. exact (fresh_call_rows Ops OL ftol c o). Qed.
+
+(** Brent::Minimize evaluates between 1 and ITMAX = 100 points (l, most recent first), x_min is one of them and f_min = f(x_min) is the
+    least value among them *)
+Theorem C11_brent_best_of_evaluated (f : T -> T) tol bk tr xm fm tr' : brent Ops f tol bk tr = Ok (xm, fm, tr') ->
+  exists l, tr' = l ++ tr /\ fm = f xm /\ In xm l /\ (forall p, In p l -> le Ops fm (f p)) /\ (1 <= length l <= 100)%nat.
+Proof. exact (brent_best Ops OL f tol bk tr xm fm tr'). Qed.
+
+(** Find_Minimum: the evaluations are Bracket's (lb) followed by Brent's (lm, 1..100 points); x_min is one of Brent's points and not
+    worse than any of them; the evaluations begin with xLeft, xRight and the golden-section point beyond the lower of the two *)
+Theorem C11_find_minimum_best_of_brent_points (f : T -> T) xl xr tol xm fm tr : find_minimum_full Ops f xl xr tol = Ok (xm, fm, tr) ->
+  exists bk lb lm, bracket Ops f xl xr = Ok (bk, rev lb) /\ tr = lb ++ lm /\ fm = f xm /\ In xm lm /\
+    (forall p, In p lm -> le Ops (f xm) (f p)) /\ (1 <= length lm <= 100)%nat.
+Proof. exact (find_minimum_full_best Ops OL f xl xr tol xm fm tr). Qed.
+
+Theorem C11_find_minimum_evaluations_start (f : T -> T) xl xr tol xm fm tr : find_minimum_full Ops f xl xr tol = Ok (xm, fm, tr) ->
+  exists l, tr = xl :: xr :: nadd Ops (if ngtb Ops (f xr) (f xl) then xl else xr)
+                               (nmul Ops (golden Ops) (nsub Ops (if ngtb Ops (f xr) (f xl) then xl else xr) (if ngtb Ops (f xr) (f xl) then xr else xl))) :: l
+            /\ l <> [].
+Proof. exact (find_minimum_full_trace_starts Ops OL f xl xr tol xm fm tr). Qed.
+End Evaluated.
+
+(** NOT true, and therefore not claimed: "Find_Minimum's result is not worse than every point it evaluated".  Bracket's early return
+    [cx = u; fc = fu; return] drops the old cx, where a value below f(bx) had been seen; Brent then searches [ax, u] only.
+    (The property asks for "not worse than the two initial abscissae" only, which is C11_find_minimum_not_worse.)
+    Witness on the integer instance of the model; the same shape on the C++ in doubles: checks/C11.py LEVEL_TEXT. *)
+Theorem C11_find_minimum_best_of_all_evaluated_refuted : exists (f : Z -> Z) xl xr tol xm fm tr p,
+  find_minimum_full ZOps f xl xr tol = Ok (xm, fm, tr) /\ In p tr /\ nltb ZOps (f p) (f xm) = true.
+Proof. exact find_minimum_best_of_all_refuted. Qed.
+Print Assumptions C11_minimize_best_of_all_evaluated.
+Print Assumptions C11_minimize_reports_evaluated_points.
+Print Assumptions C11_brent_best_of_evaluated.
+Print Assumptions C11_find_minimum_best_of_brent_points.
+Print Assumptions C11_find_minimum_evaluations_start.
+Print Assumptions C11_find_minimum_best_of_all_evaluated_refuted.
+
+(** Find_Maximum, over the reals: the result is one of the points evaluated by the Brent phase (the last 1..100 evaluations) and f is
+    not higher at any of them *)
+Theorem C11_find_maximum_best_of_brent_points (f : R -> R) xl xr tol xm tr : find_maximum ROps f xl xr tol = Ok (xm, tr) ->
+  exists lb lm, tr = lb ++ lm /\ In xm lm /\ (forall p, In p lm -> f p <= f xm) /\ (1 <= length lm <= 100)%nat.
+Proof. exact (find_maximum_best f xl xr tol xm tr). Qed.
+Print Assumptions C11_find_maximum_best_of_brent_points.
